@@ -700,6 +700,22 @@ theorem Valid_clauses {p : Pos} (h : Valid p = true) :
     simp only [Bool.and_eq_true, beq_iff_eq] at h4
     exact ⟨h4.1.1, h4.1.2⟩
 
+theorem Valid_not_inCheck {p : Pos} (h : Valid p = true) : inCheck p p.stm.other = false := by
+  unfold Valid at h
+  simp only [Bool.and_eq_true, Bool.not_eq_true'] at h
+  exact h.1.2
+
+/-- with a valid position in the builder, the candidate board has exactly one king of each colour -/
+theorem tryFromPre_king_of_valid (T : Tables) {p : Pos} (hv : Valid p = true) (c : Color) :
+    ((tryFromPre T p.toBuilder).kings &&& (tryFromPre T p.toBuilder).colorCombined c).popcnt = 1 := by
+  obtain ⟨V, _⟩ := Valid_clauses hv
+  obtain ⟨hcore, hcont, _⟩ := tryFromPre_spec T p.toBuilder
+  have hcont' : (tryFromPre T p.toBuilder).content = p.board := hcont
+  have habs : (tryFromPre T p.toBuilder).abs.board = p.board := by rw [abs_board]; exact hcont'
+  have := hcore.toStruct.count_piece_color .king c
+  rw [count_congr habs] at this
+  exact this.symm.trans (V c).1
+
 theorem fourthRank_of_spec (c : Color) (q : Sq) (h : q.rank = c.pawnRank + 2 * c.fwd) : q.getRank = c.fourthRank := by
   apply Fin.ext
   unfold Sq.rank at h
